@@ -68,6 +68,11 @@ func genC18(t *rapid.T) c18Case {
 		c.Shape.Delim = "|"
 	}
 	c.Encoding = rapid.SampledFrom([]string{"iso-8859-1", "windows-1252", "utf-8"}).Draw(t, "enc")
+	if c.Shape.Format == "xml" && rapid.IntRange(0, 2).Draw(t, "xmlDecl") == 0 {
+		// an XML declaration with its own encoding label: the xml decoder applies it to what it is given, on both sides
+		// of the relation alike
+		c.Shape.XMLDecl = rapid.SampledFrom([]string{"ISO-8859-1", "windows-1252", "latin1", "UTF-8", "utf8", "us-ascii"}).Draw(t, "xmlDeclLabel")
+	}
 	c.Recs = gen.DrawRecs(t, c.Shape, "r", 1, 5, gen.ValueOpts{ASCIIOnly: true, MaxLen: 8})
 	for i := range c.Recs {
 		for j := range c.Recs[i].Vals {
@@ -222,6 +227,9 @@ func checkC18(c c18Case) obs.Result {
 	if c.RawBOMBytes {
 		single = append([]byte{0xEF, 0xBB, 0xBF}, single...)
 		classes = append(classes, "bom-bytes-in-single-byte-encoding")
+	}
+	if c.Shape.XMLDecl != "" {
+		classes = append(classes, "xml-declaration-label")
 	}
 	if c.RawLead > 0 && c.RawLead < len(c18Leads) {
 		single = append(append([]byte{}, c18Leads[c.RawLead]...), single...)
